@@ -15,6 +15,9 @@ SRC = Path(os.environ.get("VERIF_REPO", "/repo")) / "src/wikitextprocessor"
 # pin name -> (file, dotted path of the function inside the module: Class.method or function[.inner])
 PY_PINS = {
     "merge_str_children": ("parser.py", "_parser_merge_str_children"),
+    "parser_push": ("parser.py", "_parser_push"),
+    "parser_pop": ("parser.py", "_parser_pop"),
+    "parse_encoded": ("parser.py", "parse_encoded"),
     "list_fn": ("parser.py", "list_fn"),
     "pop_until_nth_list": ("parser.py", "pop_until_nth_list"),
     "subtitle_start_fn": ("parser.py", "subtitle_start_fn"),
@@ -74,7 +77,7 @@ LUA_PINS = {
 }
 # which property's models each pin belongs to
 BY_PROPERTY = {
-    "C01": ["merge_str_children"],
+    "C01": ["merge_str_children", "parser_push", "parser_pop", "parse_encoded"],
     "C02": ["list_fn", "pop_until_nth_list", "subtitle_start_fn", "subtitle_end_fn", "hline_fn"],
     "C03": ["parse_attrs", "table_start_fn", "table_caption_fn", "table_row_fn", "table_hdr_cell_fn", "table_cell_fn",
             "double_vbar_fn", "vbar_fn", "table_end_fn", "table_check_attrs", "table_row_check_attrs", "check_for_attributes"],
